@@ -256,17 +256,17 @@ def _family_view(env: Environment, leaf: str, is_async: bool):
 
 
 @cond(
-    pre=["0 <= ca < 16", "0 <= cc < 4", "0 <= l2 < 4"],
+    pre=["0 <= ca < 8", "0 <= cc < 4", "0 <= l2 < 4"],
     timeout=300,
     timeout_thorough=1200,
     shard={"cb": [3, 7, 11, 15], "l1": [0, 1, 2, 3]},
     shard_thorough={"cb": [1, 3, 5, 7, 9, 11, 13, 15], "l1": [0, 1, 2, 3]},
     covers="templates of one family (base, two children, a grandchild) loaded through one CachingDictLoader: rendering leaf l1 and then leaf l2 gives, for l2, exactly what a fresh Environment gives (block stacks, `required` flags and parent links resolved for one chain never influence another chain or a later render of the parent itself), sync and async",
-    bounds="base configuration from 4 (thorough 8) shards (all define x, some required), children 16 x 4 configurations (no nesting), ordered pairs of 4 leaves",
+    bounds="base configuration from 4 (thorough 8) shards (all define x, some required), children 8 x 4 configurations (no nesting), ordered pairs of 4 leaves",
     grid=lambda: [(cb, ca, cc, l1, l2, a) for cb in (3, 15, 7) for ca in (1, 0, 6) for cc in (0, 3) for l1 in range(4) for l2 in range(4) for a in (False, True)],
 )
 def s_family(cb: int, ca: int, cc: int, l1: int, l2: int, is_async: bool) -> bool:
-    ca, cc = concrete_int(ca, 0, 15), concrete_int(cc, 0, 3)
+    ca, cc = concrete_int(ca, 0, 7), concrete_int(cc, 0, 3)
     l2 = concrete_int(l2, 0, 3)
     sources = _family_sources(cb, ca, cc)
     shared = untraced(lambda: Environment(loader=CachingDictLoader(dict(sources))))
